@@ -91,6 +91,11 @@ def render(model, output: str, inputs: dict[str, str]) -> str:
             if attr(n, "axis", 0) != 0:
                 raise Unsupported("GatherElements with axis != 0")
             return "(GatherElements0 " + " ".join(args()) + ")"
+        if op in ("ArgMax", "ArgMin"):
+            ax = attr(n, "axis", 0)
+            if attr(n, "select_last_index", 0) != 0 or ax < 0:
+                raise Unsupported(f"{op} with select_last_index / negative axis")
+            return f"({op} {ax} {attr(n, 'keepdims', 1)} " + " ".join(args()) + ")"
         if op == "Trilu":
             if len(n.input) != 2:
                 raise Unsupported("Trilu without k")
